@@ -182,3 +182,32 @@ def describe(reg, maxn=40):
         else: b = "%s%s" % (k, list(d[1:]))
         out.append("%s: %s %s" % (t.get("id", i), p, b))
     return out
+
+def map_ids(t, f):
+    """entry with every referenced id (fields, params, elements) mapped through f"""
+    t = _clone(t)
+    t["params"] = [(n, None if p is None else f(p)) for n, p in t["params"]]
+    d = t["def"]; k = d[0]
+    if k == "composite":
+        for fl in d[1]: fl["ty"] = f(fl["ty"])
+    elif k == "variant":
+        for v in d[1]:
+            for fl in v["fields"]: fl["ty"] = f(fl["ty"])
+    elif k in ("sequence", "compact"): t["def"] = (k, f(d[1]))
+    elif k == "array": t["def"] = (k, d[1], f(d[2]))
+    elif k == "tuple": t["def"] = (k, [f(x) for x in d[1]])
+    elif k == "bitseq": t["def"] = (k, f(d[1]), f(d[2]))
+    return t
+def permute(reg, order):
+    """new registry whose entry k is old entry order[k], ids renumbered consistently"""
+    newid = {old: new for new, old in enumerate(order)}
+    return [map_ids(reg[old], lambda i: newid[i]) for old in order]
+def restrict(reg, roots):
+    """reachability-closed sub-registry (order kept, ids renumbered); returns (new registry, old->new id map)"""
+    keep = sorted(reachable(reg, roots))
+    newid = {old: new for new, old in enumerate(keep)}
+    return [map_ids(reg[old], lambda i: newid[i]) for old in keep], newid
+def strip_segment(reg, seg):
+    reg = _clone(reg)
+    for t in reg: t["path"] = [s for s in t["path"] if s not in seg]
+    return reg
